@@ -546,7 +546,10 @@ def f8_chunk_overflow(fn, args, rec):
 
 def f8_chunk_overflow_replay():
     ws = XMR[2][1]
-    d = MnemonicUtils.WordsToBytesChunk(ws[0], ws[0], ws[1625], XMR[2][0], "little")
+    try:
+        d = MnemonicUtils.WordsToBytesChunk(ws[0], ws[0], ws[1625], XMR[2][0], "little")
+    except ValueError:
+        return None
     return None if len(d) == 4 else "WordsToBytesChunk(%r, %r, %r) = %s: %d bytes" % (ws[0], ws[0], ws[1625], d.hex(), len(d))
 
 
@@ -687,8 +690,11 @@ def _sweep_triples(ctx):
         w3 = (w2 + d2) % N
         t = [words[w1], words[w2], words[w3]]
         swept += 1
-        d = MnemonicUtils.WordsToBytesChunk(t[0], t[1], t[2], wl, ENDIAN[e])
-        ok = len(d) == 4 and MnemonicUtils.BytesChunkToWords(d, wl, ENDIAN[e]) == t
+        try:
+            d = MnemonicUtils.WordsToBytesChunk(t[0], t[1], t[2], wl, ENDIAN[e])
+            ok = len(d) == 4 and MnemonicUtils.BytesChunkToWords(d, wl, ENDIAN[e]) == t
+        except ValueError:
+            ok = False          # refused: whether rightly so is decided by the model comparison below
         if not ok:
             failing += 1
             if failing <= 4000 or failing % 50 == 0:
@@ -701,8 +707,8 @@ def _sweep_triples(ctx):
             break
     ctx.evaluations += swept
     ctx.note_exhaustive("chunk codec: %d (w2-w1, w3-w2) offset classes x random w1 checked on the implementation "
-                        "(4 bytes and re-encoding); %d failed the direct check and went through the model, %d passing "
-                        "ones sampled through the model%s" %
+                        "(4 bytes and re-encoding); %d were refused or failed the direct check and went through the "
+                        "model, %d passing ones sampled through the model%s" %
                         (swept, failing, sampled, "" if ctx.quick else " -- all 1626^2 classes"))
 
 
